@@ -269,6 +269,8 @@ class Check:
                 self.log("build of %s failed: %s" % (t, failed))
         ok, out = res["model"]
         self.obligation("model-builds:Extract+driver", ok, "" if ok else error_locus(out))
+        bad = forbidden_vernacular()
+        self.obligation("no-axiom-no-admit:coq/**/*.v", not bad, "; ".join(bad)[:400])
         return res
 
     def obligation(self, name, ok, detail):
@@ -384,6 +386,58 @@ def problem_concerns(line, pid):
         if name.startswith(prefix):
             return pid in owners
     return True
+
+
+FORBIDDEN = re.compile(r"\b(Admitted|admit|Axiom|Axioms|Parameter|Parameters|Conjecture|Hypothesis|Hypotheses|Variable|Variables|Admit Obligations)\b|"
+                       r"Unset\s+Guard|Unset\s+Positivity|Unset\s+Universe|bypass_check|type-in-type|impredicative-set")
+
+
+def forbidden_vernacular():
+    """every .v file of the development (generated ones included) and the build flags: no axiom-declaring command, no admit, no
+    switched-off kernel check; comments are stripped first"""
+    bad = []
+    for root, _, files in os.walk(COQ):
+        for fn in files:
+            if not fn.endswith(".v") and fn != "_CoqProject":
+                continue
+            p = os.path.join(root, fn)
+            text = open(p, encoding="utf-8", errors="replace").read()
+            if fn.endswith(".v"):
+                text = strip_coq_comments(text)
+            sections = []
+            for i, line in enumerate(text.split("\n"), 1):
+                ms = re.match(r"\s*Section\s+(\w+)\s*\.", line)
+                if ms:
+                    sections.append(ms.group(1))
+                me = re.match(r"\s*End\s+(\w+)\s*\.", line)
+                if me and sections and sections[-1] == me.group(1):
+                    sections.pop()
+                m = FORBIDDEN.search(line)
+                if m and not (sections and m.group(1) in ("Variable", "Variables", "Hypothesis", "Hypotheses")):
+                    bad.append("%s:%d %s" % (os.path.relpath(p, COQ), i, m.group(0)))
+    return bad
+
+
+def strip_coq_comments(text):
+    out, depth, i, in_str = [], 0, 0, False
+    while i < len(text):
+        if not in_str and text.startswith("(*", i):
+            depth += 1
+            i += 2
+            continue
+        if not in_str and depth and text.startswith("*)", i):
+            depth -= 1
+            i += 2
+            continue
+        c = text[i]
+        if depth == 0:
+            if c == '"':
+                in_str = not in_str
+            out.append(c)
+        elif c == "\n":
+            out.append(c)
+        i += 1
+    return "".join(out)
 
 
 def hand_models_changed(chk=None):
